@@ -107,7 +107,7 @@ def op_dump_load(w, s):
     if diff:
         raise V({"C14"}, "C14.roundtrip", f"dump/load of {a} ({e.kind}, bonds {e.obj.bond_dims}) changed {diff}" + (" after an injected I/O fault" if fired else ""),
                 sig="C14.roundtrip:" + diff.split(" ")[0])
-    w.put(s["out"], e.kind, new, e.shadow.copy(), e.mid, dict(e.meta))
+    w.put(s["out"], e.kind, new, e.shadow.copy(), e.mid, dict(e.meta, loaded=True))
     w.check_value(s["out"], {"C14"}, "C14.roundtrip.value")
     # ---- every later operation gives identical results
     mpo = None
